@@ -789,6 +789,26 @@ package semver
 //@     invariant loopframe()
 //@   property C03
 
+// One-number versions: M stands for M.x.x.
+//@ pred simple1(v *Version) = v != nil && v.ext == nil && len(v.num) == 1 && 0 <= v.num[0] && v.num[0] < infinity && backed(v.num, &v.buf) && len(v.pre) == 0 &&
+//@      (v.sys == NPM || v.sys == Cargo || v.sys == DefaultSystem)
+//@ func opVersionToSpan ~simple1
+//@   requires simple1(lo)
+//@   prune
+//@   abstract (*Version).rebuildExtension
+//@   uses compare.plain.nums3 compare.plain.laws
+//@   ensures imp((typ == tokEmpty || typ == tokEqual || typ == tokTilde || typ == tokCaret), result1 == nil && result0.rank == vector && bounds(result0, false, false) &&
+//@           numsG(result0.min, old(lo.num[0]), 0, 0) && len(result0.min.pre) == 0 && nums3(result0.max, old(lo.num[0]), infinity, infinity))
+//@   ensures imp(typ == tokLess && old(lo.num[0]) != 0, result1 == nil && result0.rank == vector && bounds(result0, false, true) &&
+//@           nums3(result0.min, 0, 0, 0) && len(result0.min.pre) == 1 && numsG(result0.max, old(lo.num[0]), 0, 0) && len(result0.max.pre) == 0)
+//@   ensures imp(typ == tokLessEqual, result1 == nil && result0.rank == vector && bounds(result0, false, false) &&
+//@           nums3(result0.min, 0, 0, 0) && len(result0.min.pre) == 1 && nums3(result0.max, old(lo.num[0]), infinity, infinity) && len(result0.max.pre) == 0)
+//@   loop 0
+//@     invariant loopframe(hi.num) && forall(k, 0, rangeidx + 1, hi.num[k] == infinity)
+//@   loop 1
+//@     invariant loopframe()
+//@   property C03
+
 //@ func opVersionToSpan ~simple3
 //@   requires simple3(lo)
 //@   prune
